@@ -4,7 +4,9 @@ CONSTANTS
   ROSChoices = {TRUE, FALSE}
   RefOutcomes = {"nil", "err"}
   CloseLate = FALSE
+  StopOnCancel = FALSE
+  SctxInit = {"live", "cancelled"}
   AllowTBD = TRUE
-INVARIANTS WTypeOK OneRefreshPerTick CtxFromConstructor ErrorsHandledOnce ScheduleConsulted NoRefreshAfterShutdown DoneClosedFirst WindowNeverTicks ShutdownResult
+INVARIANTS WTypeOK OneRefreshPerTick CtxFromConstructor ErrorsHandledOnce ScheduleConsulted NoRefreshAfterShutdown DoneClosedFirst WindowNeverTicks StopsOnlyOnShutdown ShutdownResult
 PROPERTIES StoppedIsFinal EventuallyStops
 CHECK_DEADLOCK FALSE
